@@ -183,6 +183,13 @@ def matrix_protos():
     mk(alpha_tag('Mo', j), [Field('ref', 'Book', packet='Book', named=True), num('Post', 'u16')],
        subs=[('Book', [Field('ref', 'Best', packet='Level', named=True), Field('ref', 'Worst', packet='Level', named=True)]), ('Level', [num('Px', 'i64'), dyn('Venue')])],
        options={'LittleEndian': 'true'})
+    # three levels of inline nesting, repeated at two of them, next to a plain member of each level
+    for le in (None, 'true'):
+        j += 1
+        l3 = Field('inline', 'Twig', fields=[num('Xc', 'u8'), fix('Yc', 3), num('Zc', 'i16', repeat=True)], repeat=True)
+        l2 = Field('inline', 'Leaf', fields=[dyn('Yb'), l3, num('Xb', 'u32')], repeat=(le is None))
+        l1 = Field('inline', 'Branch', fields=[num('Xa', 'u16'), l2, dyn('Ya', 'char[]')], repeat=(le is not None))
+        mk(alpha_tag('Mo', j), [num('Pre', 'u8'), l1, num('Post', 'u16')], options={'LittleEndian': le, 'ArrayPrefixLenType': 'u8'} if le else None)
     # match
     j = 0
     for kt in INT_TYPES:
